@@ -238,6 +238,15 @@ def _gen_case(rng, tier):
     t = list(TOUCH)
     rng.shuffle(t)
     case['touch'] = t[:rng.choice([1, 1, 2, 3, 6])]
+    if 'files' in case['touch'] and rng.random() < 0.25:
+        case['touch'] = [('files_rr:%d' % rng.choice([1, 4, 16])) if x == 'files' else x for x in case['touch']]
+    r = rng.random()
+    if r < 0.08:
+        case['stages'] = {'after': [rng.choice(['forms_quiet', 'json', 'body'])]}      # e.g. an audit hook reading the body
+    elif r < 0.14:
+        case['stages'] = {'before': [rng.choice(['forms_quiet', 'json'])]}
+    elif r < 0.2:
+        case['stages'] = {'lazy': True}
     return case
 
 
@@ -332,7 +341,7 @@ def _run_case(case):
     elif fr['kind'] == 'cl_over':
         cl = len(body) + fr['extra']
     o = body_request(wire, case['sched'], B=case['B'], cl=cl, chunked=chunked, ctype=case['ctype'],
-                     tempmode='mem', touch=tuple(case['touch']))
+                     tempmode='mem', touch=tuple(case['touch']), stages=case.get('stages'))
     code = o.resp.code
     log('status', o.resp.status, 'calls', o.stream.n_calls, 'seen', digest(o.seen))
     exc = o.handler_exc
@@ -429,6 +438,10 @@ def _shrink_candidates(case):
         yield dict(case, sched=sc)
     if case['framing']['kind'] != 'cl':
         yield dict(case, framing={'kind': 'cl'})
+    if case.get('stages'):
+        c = dict(case)
+        c.pop('stages')
+        yield c
     if len(case['touch']) > 1:
         for t in case['touch']:
             yield dict(case, touch=[t])
@@ -460,7 +473,8 @@ TWIN_SHARE = 0.05
 
 
 def gen_case(rng, tier):
-    return _twin.maybe_wrap(rng, _gen_case(rng, tier), TWIN_SHARE)
+    return _twin.maybe_wrap(rng, _gen_case(rng, tier), TWIN_SHARE,
+                            ok=lambda c: not ({'before', 'after'} & set(c.get('stages') or {})))
 
 
 def run_case(case):
